@@ -263,6 +263,53 @@ pub fn check(depth: u8, h: u64, delta: u8, use_free_fns: bool, part: &mut Part) 
 }
 
 
+
+/// Internal edge only, for huge delta_depth (outputs of 10^7 cells): the walk is compared
+/// element by element with the reference descendants, without building the reference vectors.
+pub fn check_internal_huge(depth: u8, h: u64, delta: u8, part: &mut Part) -> Option<Viol> {
+  let mut case = case_json(depth, h, delta);
+  case["internal_only"] = json!(true);
+  let m = (1u32 << delta) - 1;
+  let expected_len = (4usize << delta) - 4;
+  let ie = match guarded(move || nested::internal_edge(depth, h, delta)) {
+    Ok(v) => v,
+    Err(msg) => return Some(Viol { api: "nested::internal_edge".into(), kind: "panic-in-domain".into(), case, expected: format!("{} cells", expected_len), actual: format!("panic: {}", msg) }),
+  };
+  part.validated += 1;
+  if ie.len() != expected_len {
+    return Some(Viol { api: "internal_edge".into(), kind: "wrong-walk".into(), case, expected: format!("{} cells", expected_len), actual: format!("{} cells", ie.len()) });
+  }
+  let at = |k: usize| -> u64 {
+    let (side, t) = (k / m as usize, (k % m as usize) as u32);
+    match side {
+      0 => descendant(depth, h, delta, t, 0),
+      1 => descendant(depth, h, delta, m, t),
+      2 => descendant(depth, h, delta, m - t, m),
+      _ => descendant(depth, h, delta, 0, m - t),
+    }
+  };
+  let mut digest = 0u64;
+  for (k, &c) in ie.iter().enumerate() {
+    let e = at(k);
+    digest = digest.wrapping_mul(1_000_003) ^ c;
+    if c != e {
+      return Some(Viol { api: "internal_edge".into(), kind: "wrong-walk".into(), case, expected: format!("element {} of the closed walk = {}", k, e), actual: c.to_string() });
+    }
+  }
+  part.outcome(digest);
+  let ies = match guarded(move || nested::internal_edge_sorted(depth, h, delta)) {
+    Ok(v) => v,
+    Err(msg) => return Some(Viol { api: "nested::internal_edge_sorted".into(), kind: "panic-in-domain".into(), case, expected: "the sorted walk".into(), actual: format!("panic: {}", msg) }),
+  };
+  let mut sorted = ie.into_vec();
+  sorted.sort_unstable();
+  if ies.len() != sorted.len() || ies.iter().zip(sorted.iter()).any(|(a, b)| a != b) {
+    let k = ies.iter().zip(sorted.iter()).position(|(a, b)| a != b).unwrap_or(0);
+    return Some(Viol { api: "internal_edge_sorted".into(), kind: "wrong-set".into(), case, expected: format!("element {} = {}", k, sorted.get(k).copied().unwrap_or(0)), actual: format!("{:?}", ies.get(k)) });
+  }
+  None
+}
+
 /// Direct, exhaustive check of the two public direction helpers of lib.rs the structured variant is
 /// built on: for every cell on the border of a base cell (depths 0..=max_d) and every neighbour
 /// lying in another base cell, the direction of the cell seen from that neighbour (reference: the
@@ -462,6 +509,20 @@ pub fn run(ctx: &Ctx) -> i32 {
     part
   });
   check_direction_helpers(if quick { 3 } else { 6 }, &mut total);
+  // huge delta_depth (internal edge only): 8.4e6 .. 3.4e7 cells
+  {
+    let items: Vec<(u8, u64, u8)> = if quick { vec![(3, 437, 21), (8, 500_001, 21)] } else { vec![(3, 437, 21), (8, 500_001, 21), (0, 7, 22), (5, 9000, 23), (6, 40_000, 19), (1, 30, 20)] };
+    let huge = par_jobs(items.len(), |k| {
+      let (d, h, delta) = items[k];
+      let mut part = Part::new();
+      part.stratum("huge-delta-internal-edge", 1, 2);
+      if let Some(v) = check_internal_huge(d, h, delta, &mut part) {
+        part.viol(v);
+      }
+      part
+    });
+    total.merge(huge);
+  }
   // out-of-range hash on the checked entry points
   for (d, h) in [0u8, 3, 12, 28].iter().flat_map(|&d| out_of_range_hashes(d).into_iter().map(move |h| (d, h))) {
     total.stratum("out-of-range", 1, 3);
@@ -492,6 +553,9 @@ pub fn replay(case: &Value) -> Option<Viol> {
   let d = case["depth"].as_u64().unwrap() as u8;
   let h = u64_from_json(&case["hash"]);
   let delta = case["delta_depth"].as_u64().unwrap() as u8;
+  if case.get("internal_only").is_some() {
+    return check_internal_huge(d, h, delta, &mut part);
+  }
   if case.get("helper").is_some() {
     check_direction_helpers(d, &mut part);
     return part.viols.into_iter().next();
